@@ -45,6 +45,8 @@ pub enum Place {
     AroundInclude,
     AfterSkippedRegion,
     ThreeCallsThenStmt,
+    SplicedLiteral,
+    LocalInitTwoCalls,
     CharConst,
     CharConstMacro,
     CharCase,
@@ -111,6 +113,8 @@ pub fn cases(tier: Tier) -> Vec<LCase> {
         Place::AroundInclude,
         Place::AfterSkippedRegion,
         Place::ThreeCallsThenStmt,
+        Place::SplicedLiteral,
+        Place::LocalInitTwoCalls,
     ];
     let mut v = Vec::new();
     for (k, b) in bodies.iter().enumerate() {
@@ -193,6 +197,9 @@ pub fn run(c: &LCase) -> CaseOutcome {
         Place::AroundInclude => format!("{}const char *s = \"{}\";\n#include \"c09hdr.h\"\nconst char *t = \"zz\";\nvoid main() {{}}\n", pre, sp),
         Place::AfterSkippedRegion => format!("{}#ifdef UNDEF\nconst char *d1 = \"skip1\";\n#else\nconst char *d2 = \"kept\";\n#endif\n#if 0\nconst char *d3 = \"skip2\"; const char *d4 = \"skip3\";\n#endif\nconst char *s = \"{}\";\nconst char *t = \"zz\";\nvoid main() {{}}\n", pre, sp),
         Place::ThreeCallsThenStmt => format!("{}char r; char *q;\nchar k(char *p) {{ return p[Y]; }}\nvoid main() {{ r = k(\"{}\") + k(\"yy\") + k(\"xx\"); q = \"zz\"; }}\n", pre, sp),
+        // the literal goes on after a backslash-newline, with blanks that belong to it
+        Place::SplicedLiteral => format!("{}const char *s = \"{}\\\n   {}\";\nconst char *t = \"zz\";\nvoid main() {{}}\n", pre, sp, sp),
+        Place::LocalInitTwoCalls => format!("{}char r;\nchar k(char *p) {{ return p[Y]; }}\nvoid main() {{ char y = k(\"{}\") | k(\"zz\"); r = y; }}\n", pre, sp),
         Place::CharConst => format!("{}const char c = '{}';\nvoid main() {{}}\n", pre, sp),
         // a one-character macro named like the character (only meaningful for identifier characters)
         Place::CharConstMacro => format!("{}#define {} 5\nconst char c = '{}';\nvoid main() {{}}\n", pre, if sp == "a" || sp == "M" { sp.as_str() } else { "zq" }, sp),
@@ -221,8 +228,17 @@ pub fn run(c: &LCase) -> CaseOutcome {
     o.nontrivial = !c.atoms.is_empty();
     let zz: Vec<i32> = vec![122, 122, 0];
     match c.place {
-        Place::PtrInit | Place::ArrInit | Place::TwoOnLine | Place::BeforeLineComment | Place::BeforeBlockComment | Place::AfterBlockComment | Place::AroundInclude | Place::AfterSkippedRegion | Place::Adjacent => {
+        Place::PtrInit | Place::ArrInit | Place::TwoOnLine | Place::BeforeLineComment | Place::BeforeBlockComment | Place::AfterBlockComment | Place::AroundInclude | Place::AfterSkippedRegion | Place::Adjacent | Place::SplicedLiteral => {
             let mut w = want.clone();
+            if c.place == Place::SplicedLiteral {
+                // body, three blanks, body
+                w.pop();
+                let mut w2 = w.clone();
+                w2.extend_from_slice(&[32, 32, 32]);
+                w2.extend_from_slice(&w);
+                w2.push(0);
+                w = w2;
+            }
             if c.place == Place::Adjacent {
                 w.pop();
                 let mut w2 = w.clone();
@@ -255,7 +271,7 @@ pub fn run(c: &LCase) -> CaseOutcome {
                 }
             }
         }
-        Place::TableElem | Place::CallArg | Place::TwoCallsOneExpr | Place::TwoArgs | Place::ThreeCallsThenStmt => {
+        Place::TableElem | Place::CallArg | Place::TwoCallsOneExpr | Place::TwoArgs | Place::ThreeCallsThenStmt | Place::LocalInitTwoCalls => {
             let lits = literal_vars(&rec);
             let mut wanted: Vec<Vec<i32>> = vec![want.clone()];
             if c.place != Place::CallArg {
@@ -377,6 +393,6 @@ impl Check for C09 {
         run(&self.cs(tier)[idx])
     }
     fn bounds(&self, tier: Tier) -> Value {
-        json!({"atoms": ATOMS.iter().map(|a| a.0).collect::<Vec<_>>(), "max_atoms": if tier == Tier::Quick { 2 } else { 3 }, "places": 19})
+        json!({"atoms": ATOMS.iter().map(|a| a.0).collect::<Vec<_>>(), "max_atoms": if tier == Tier::Quick { 2 } else { 3 }, "places": 21})
     }
 }
